@@ -4,15 +4,15 @@ CONSTANTS
   Tags = {0, 1}
   Ints <- MCInts
   Strs <- MCStrs
-  FInts = {1}
-  FStrs <- MCFStrsSmall
-  FBoth <- MCFBothSmall
-  Res <- MCResTwo
+  FInts = {0, 1}
+  FStrs <- MCFStrsOdd
+  FBoth <- MCFBothOdd
+  Res <- MCRes
   ReSet <- MCReSet
   Kinds = {"plain", "raw"}
   ValKinds = {"M", "S", "B", "E"}
-  MaxOps = 3
-  MaxVals = 3
+  MaxOps = 2
+  MaxVals = 2
   Break = "none"
   IntIdx <- MCIntIdx
   StrIdx <- MCStrIdx
